@@ -110,14 +110,14 @@ package backend
 // that the backend has not been released before, and a reload may only release what it also drops.
 
 //@ func NewBfeBackend
-//@   props C09
+//@   props C09,C06
 //@   nopanic nil
 //@   modifies nothing
 //@   ensures[a_new_backend_is_fresh_available_and_not_released] result0 != nil && !allocated(result0) && result0.avail && result0.connNum == 0 && result0.failNum == 0 && result0.succNum == 0 && result0.closeChan != nil && !allocated(result0.closeChan) && !closed(result0.closeChan)
 //@   ensures[and_exists_afterwards] allocatedNow(result0) && allocatedNow(result0.closeChan)
 
 //@ func (*BfeBackend).Close
-//@   props C09
+//@   props C09,C06
 //@   nopanic nil,close
 //@   requires back != nil
 //@   requires[not_released_before] back.closeChan != nil && !closed(back.closeChan)
@@ -125,7 +125,7 @@ package backend
 //@   ensures closed(back.closeChan)
 
 //@ func (*BfeBackend).Release
-//@   props C09
+//@   props C09,C06
 //@   nopanic nil,close
 //@   requires back != nil
 //@   requires[not_released_before] back.closeChan != nil && !closed(back.closeChan)
